@@ -1148,7 +1148,7 @@ pub fn prop() -> DiceProp {
         nightly: false,
         check_only: false,
         ndice: 200,
-        quick: (1600, 1),
+        quick: (3000, 1),
         thorough: (5000, 4),
         build: build_stable,
         fixed: fixed_stable,
@@ -1184,7 +1184,7 @@ pub fn prop_nightly() -> DiceProp {
         nightly: true,
         check_only: false,
         ndice: 200,
-        quick: (700, 1),
+        quick: (1200, 1),
         thorough: (2500, 4),
         build: build_nightly,
         fixed: fixed_nightly,
